@@ -310,7 +310,7 @@ def tok_3(ctx, rep, accumulators):
     if len(accs) < 2:
         raise AnalysisError('TOK-3: prefix accumulators of tokenize_lines not found (%s)' % accs)
     cfg = ctx.cfg(f)
-    flow = FactFlow(cfg)
+    flow = FactFlow(cfg, prune=True)
     # axiom: a slice of the current line taken from the start of a matched token is non-empty
     axiom_truthy = set()
     for n in cfg.nodes:
